@@ -21,6 +21,34 @@ META = {
 }
 
 
+def family_call(tonic, body, name=None, pat=None):
+    """[(owner body, bb, call term, link)] for calls in `body` or in closures nested in it; link = the origin, in `body`, of the
+    receiver of the combinator call the closure was handed to (None when the call is in `body` itself)"""
+    out = [(body, bb, t, None) for bb, t in body.calls(pat=pat, name=name)]
+    for c in tonic.bodies:
+        if c.kind != 'closure' or not c.path.startswith(body.path + '::'):
+            continue
+        hits = c.calls(pat=pat, name=name)
+        if not hits:
+            continue
+        # find, up the closure chain, the call in `body` that receives the outermost closure
+        top = c
+        while top.parent != body.path and top.parent:
+            ps = [x for x in tonic.bodies if x.path == top.parent]
+            if not ps:
+                break
+            top = ps[0]
+        link = None
+        for pb, pt in body.calls():
+            for a in pt['args']:
+                o = strip_refs(body.origin(a))
+                if o[0] == 'agg' and o[1].get('def') == top.path and pt['args']:
+                    link = body.origin(pt['args'][0])
+        for bb, t in hits:
+            out.append((c, bb, t, link))
+    return out
+
+
 def check_status_writer(R, tonic, rule):
     """every value Status::add_header stores under grpc-message / grpc-status-details-bin / grpc-status went through its encoder on every path"""
     ah = tonic.body('status::Status::add_header')
@@ -60,18 +88,17 @@ def run(R):
         # to_header_value: discr(arg) == n  ->  HeaderValue::from_static("n")
         b = tonic.body('status::Code::to_header_value')
         R.saw(b)
-        eff = writers_of(b, 0)
-        rows = decision_rows(b, 0, eff)
         seen = {}
-        for cons, bb in rows:
+        for cons, path in mirlib.path_rows(b):
             d = cons_dict(cons)
             subj = [k for k in d if k.startswith('discr(')]
-            w = block_writes(b, bb, 0)
-            if len(subj) != 1 or d[subj[0]][0] != '==' or not w or w[0][0] != 'call' or w[0][3] != 'from_static':
-                R.bad('C04.R1', 'to_header_value:shape', site(b, bb), 'unrecognised row %r -> %r' % (cons, w), kind='UNRECOGNISED')
+            val = strip_refs(mirlib.simplify(b.ret_on_path(path)))
+            bb = path[-1]
+            if len(subj) != 1 or d[subj[0]][0] != '==' or not is_call(val, name='from_static'):
+                R.bad('C04.R1', 'to_header_value:shape', site(b, bb), 'unrecognised row %r -> %s' % (cons, show(val)[:80]), kind='UNRECOGNISED')
                 continue
             n = d[subj[0]][1]
-            s = const_str(w[0][2][0])
+            s = const_str(val[2][0])
             seen[n] = s
             R.eq(s, str(n), 'C04.R1', 'to_header_value:%s' % bynum.get(n, n), site(b, bb), 'header string for discriminant %d' % n)
         R.floor('C04.R1', 'to_header_value rows', len(seen), 17)
@@ -89,7 +116,7 @@ def run(R):
         found = {}
         for cons, bb in rows:
             d = cons_dict(cons)
-            ln = [v for k, v in d.items() if 'len(' in k]
+            ln = [v for k, v in d.items() if 'len(' in k or k.startswith('PtrMetadata(')]
             b0 = [v for k, v in d.items() if k.endswith('[const(0)]')]
             b1 = [v for k, v in d.items() if k.endswith('[const(1)]')]
             w = block_writes(b, bb, 0)
@@ -162,10 +189,14 @@ def run(R):
         check_status_writer(R, tonic, 'C04.R2')
         fh = tonic.body('status::Status::from_header_map')
         R.saw(fh)
-        bb, t = fh.call1(name='decode_utf8')
-        a0 = fh.origin(t['args'][0])
-        R.check(is_call(strip_refs(a0), name='percent_decode') and mentions_constdef(a0, 'GRPC_MESSAGE'), 'C04.R2', 'reader-decodes-message', site(fh, bb),
-                'decode_utf8 receiver = %s' % show(a0))
+        fc = family_call(tonic, fh, name='decode_utf8')
+        if len(fc) != 1:
+            raise CheckError('ANCHOR-MISSING: decode_utf8 in from_header_map (or a closure of it) matched %d sites' % len(fc))
+        ob, bb, t, link = fc[0]
+        a0 = ob.origin(t['args'][0])
+        src_ok = mentions_constdef(a0, 'GRPC_MESSAGE') if link is None else mentions_constdef(link, 'GRPC_MESSAGE')
+        R.check(is_call(strip_refs(a0), name='percent_decode') and src_ok, 'C04.R2', 'reader-decodes-message', site(ob, bb),
+                'decode_utf8 receiver = %s (applied to the grpc-message header: %r)' % (show(a0), src_ok))
 
     # ---------------------------------------------------------------- R3 base64 engines
     R.describe('C04.R3', 'base64 engines: decoders accept padded and unpadded input; writer of grpc-status-details-bin uses the no-pad engine, reader the indifferent STANDARD engine')
@@ -187,10 +218,14 @@ def run(R):
         R.check(mentions_constdef(ah.origin(t['args'][0]), 'STANDARD_NO_PAD'), 'C04.R3', 'writer-engine', site(ah, bb), 'engine = %s' % show(ah.origin(t['args'][0])))
         R.check(mentions_field(ah.origin(t['args'][1]), 'details'), 'C04.R3', 'writer-encodes-details', site(ah, bb), 'input = %s' % show(ah.origin(t['args'][1])))
         fh = tonic.body('status::Status::from_header_map')
-        bb, t = fh.call1(pat='base64::Engine::decode')
-        eng = fh.origin(t['args'][0])
-        R.check(constdef(eng) and constdef(eng).endswith('base64::STANDARD'), 'C04.R3', 'reader-engine', site(fh, bb), 'engine = %s' % show(eng))
-        R.check(mentions_constdef(fh.origin(t['args'][1]), 'GRPC_STATUS_DETAILS'), 'C04.R3', 'reader-decodes-details', site(fh, bb), 'input = %s' % show(fh.origin(t['args'][1])))
+        fc = family_call(tonic, fh, pat='base64::Engine::decode')
+        if len(fc) != 1:
+            raise CheckError('ANCHOR-MISSING: base64 decode in from_header_map (or a closure of it) matched %d sites' % len(fc))
+        ob, bb, t, link = fc[0]
+        eng = ob.origin(t['args'][0])
+        R.check(constdef(eng) and constdef(eng).endswith('base64::STANDARD'), 'C04.R3', 'reader-engine', site(ob, bb), 'engine = %s' % show(eng))
+        inp = ob.origin(t['args'][1])
+        R.check(mentions_constdef(inp, 'GRPC_STATUS_DETAILS') if link is None else mentions_constdef(link, 'GRPC_STATUS_DETAILS'), 'C04.R3', 'reader-decodes-details', site(ob, bb), 'input = %s' % show(inp))
 
     # ---------------------------------------------------------------- R4 strips / order
     R.describe('C04.R4', 'reader removes exactly the three status headers from the metadata clone; writer extends with sanitised user metadata before inserting the three (insert, not append)')
@@ -201,11 +236,18 @@ def run(R):
         fh = tonic.body('status::Status::from_header_map')
         removed = set()
         for bb, t in fh.calls(pat='HeaderMap', name='remove'):
-            cd = constdef(fh.origin(t['args'][1]))
+            key = fh.origin(t['args'][1])
+            cd = constdef(key)
             recv = strip_refs(fh.origin(t['args'][0]))
             R.check(is_call(recv, name='clone'), 'C04.R4', 'reader-remove-on-clone:%s' % (cd or '?').split('::')[-1], site(fh, bb), 'remove receiver = %s' % show(recv))
             if cd:
                 removed.add(cd.split('::')[-1])
+            elif find_terms(key, lambda x: is_call(x, name='next')):
+                # a loop over an array of the constants
+                for x in find_terms(key, lambda x: x and x[0] == 'agg' and x[1].get('kind') == 'array'):
+                    for o in x[2]:
+                        if constdef(o):
+                            removed.add(constdef(o).split('::')[-1])
         R.eq(sorted(removed), sorted(w), 'C04.R4', 'reader-removes', site(fh), 'names removed from the metadata clone')
         # metadata field built from that clone
         aggs = mirlib.aggregates(fh, 'status::Status')
@@ -284,43 +326,41 @@ def run(R):
     R.describe('C04.R5b', 'from_header_map: whenever decoding grpc-message (percent/UTF-8) or grpc-status-details-bin (base64) fails, the resulting status code is Code::Unknown (never the peer-supplied code)')
     with R.guard('C04.R5b'):
         fh = tonic.body('status::Status::from_header_map')
-        aggs = mirlib.aggregates(fh, 'status::Status')
+        meta = {}
+        rows = mirlib.path_rows(fh, meta=meta)
         n = 0
-        for bb, i, p, a, ops in aggs:
-            code_t = fh.origin(ops[a['fields'].index('code')])
-            # walk back through the (code, message, ..) tuples: every tuple writer guarded by an Err discriminant must carry Unknown
-            seen_loc = set()
-            work = [ops[a['fields'].index('code')]]
-            while work:
-                op = work.pop()
-                pl = op.get('cp') or op.get('mv')
-                if pl is None:
-                    continue
-                base = pl['l']
-                idx = [e['f'] for e in pl.get('pr', []) if isinstance(e, dict) and 'f' in e]
-                if base in seen_loc:
-                    continue
-                seen_loc.add(base)
-                for d in fh.defs().get(base, []):
-                    if d[0] != 'stmt':
-                        continue
-                    rv = d[3]
-                    dbb = d[1]
-                    if 'agg' in rv and rv['agg'].get('kind') == 'tuple':
-                        comp = rv['ops'][idx[0]] if idx else rv['ops'][0]
-                        g = fh.edge_guards(dbb)
-                        err_guard = [show(tm)[:70] for s_, vals, tm in g if show(tm).startswith('discr(') and vals == [1] and ('decode' in show(tm)) and 'from_bytes' not in show(tm)]
-                        ct = strip_refs(fh.origin(comp))
-                        if err_guard:
-                            n += 1
-                            okc = ct[0] == 'agg' and ct[1].get('variant') == 'Unknown'
-                            R.check(okc, 'C04.R5b', 'decode-failure->Unknown@%s' % ('details' if 'base64' in err_guard[0] else 'message'), site(fh, dbb),
-                                    'code on the decode-failure path = %s (guard %s); required Code::Unknown — otherwise grpc-status: 0 with an undecodable field is treated as success' % (show(ct), err_guard[0]))
-                        else:
-                            work.append(comp)
-                    elif 'use' in rv:
-                        work.append(rv['use'])
+        nok = 0
+        for cons, path in rows:
+            v = cons_view(cons, meta)
+            val = mirlib.simplify(fh.ret_on_path(path))
+            st_ = [x for x in built_parts(val) if x[1].get('adt', '').endswith('status::Status') and x[1].get('kind') == 'adt']
+            if not st_:
+                continue
+            sa = st_[0]
+            code_t = strip_refs(sa[2][sa[1]['fields'].index('code')])
+            terms = meta.get('__terms__', {})
+
+            def decoded(k, cname):
+                # the Result of decoding that header: a discriminant test of something computed from get(<cname>) that is not the Option itself
+                t_ = terms.get(k)
+                if not t_ or t_[0] != 'discr' or not mentions_constdef(t_, cname):
+                    return False
+                inner = strip_refs(t_[1])
+                is_result = len(t_) > 2 and t_[2] and 'Err' in [n_ for _, n_ in t_[2]]
+                return is_result and not is_call(inner, name='get') and not (is_call(inner, name='branch'))
+            det = view_get(v, lambda k: decoded(k, 'GRPC_STATUS_DETAILS'))
+            msg = view_get(v, lambda k: decoded(k, 'GRPC_MESSAGE'))
+            failed = [nm for nm, x in (('message', msg), ('details', det)) if x == 'Err']
+            if failed:
+                n += 1
+                okc = code_t[0] == 'agg' and code_t[1].get('variant') == 'Unknown'
+                R.check(okc, 'C04.R5b', 'decode-failure->Unknown@%s' % '+'.join(failed), site(fh, path[-1]),
+                        'code on the path where decoding %s fails = %s; required Code::Unknown — otherwise grpc-status: 0 with an undecodable field is treated as success' % ('+'.join(failed), show(code_t)[:80]))
+            elif msg in ('Ok', None) and det in ('Ok', None):
+                nok += 1
+                R.check(term_contains(code_t, lambda x: is_call(x, name='from_bytes')), 'C04.R5b', 'decoded->peer-code', site(fh, path[-1]), 'code on a path without a decode failure = %s (Code::from_bytes of the header)' % show(code_t)[:80])
         R.floor('C04.R5b', 'decode-failure arms', n, 2)
+        R.floor('C04.R5b', 'clean paths', nok, 1)
 
     # ---------------------------------------------------------------- R6 HTTP status table
     R.describe('C04.R6', 'infer_grpc_status maps HTTP status codes exactly as spec/http_status.json; 200 -> Err(None); default Unknown')
@@ -370,13 +410,18 @@ def run(R):
         R.floor('C04.R6', 'Ok returns of infer_grpc_status', len(okrets), 1)
         for ob in okrets:
             g = b.edge_guards(ob)
-            parsed = any(tm[0] == 'discr' and term_contains(tm, lambda x: is_call(x, pat='Status::from_header_map')) and vals == [1] for s, vals, tm in g)
-            code_ok = any(is_call(strip_refs(tm), name='eq') and term_contains(tm, lambda x: is_call(x, name='code')) and term_contains(tm, lambda x: x and x[0] == 'agg' and x[1].get('variant') == 'Ok') and (vals == ['else'] or 0 not in vals) for s, vals, tm in g)
+            uses_fhm = lambda t_: has_fn(t_, 'from_header_map', 'Status')
+            parsed = any(tm[0] == 'discr' and uses_fhm(tm) and vals == [1] for s, vals, tm in g)
+            is_okv = lambda x: x and x[0] == 'agg' and x[1].get('variant') == 'Ok' and 'Code' in x[1].get('adt', '')
+            code_ok = any(is_call(strip_refs(tm), name='eq') and term_contains(tm, lambda x: is_call(x, name='code')) and term_contains(tm, is_okv) and (vals == ['else'] or 0 not in vals) for s, vals, tm in g) \
+                or any(is_call(strip_refs(tm), name='ne') and term_contains(tm, lambda x: is_call(x, name='code')) and term_contains(tm, is_okv) and vals == [0] for s, vals, tm in g) \
+                or any(tm[0] == 'discr' and is_call(strip_refs(tm[1]), name='code') and uses_fhm(tm) and vals == [0] and tm[2] and dict((a_, b_) for a_, b_ in tm[2]).get(0) == 'Ok' for s, vals, tm in g)
             R.check(parsed and code_ok, 'C04.R6', 'ok-only-after-parsing-trailers', site(b, ob),
                     'Ok(()) is returned only when Status::from_header_map(trailers) is Some (%r) and its code == Code::Ok (%r); a shortcut on the raw grpc-status header would skip the undecodable-field degradation' % (parsed, code_ok))
         # trailers path: from_header_map consulted first, Ok only for Code::Ok
         fm = b.calls(pat='Status::from_header_map')
-        R.check(len(fm) == 1 and b.dominates(fm[0][0], start) is False or len(fm) == 1, 'C04.R6', 'trailers-first', site(b), 'from_header_map consulted: %d site(s)' % len(fm))
+        fmi = [bb_ for bb_, t_ in b.calls() if any(a_.get('k', {}).get('fn', '').endswith('Status::from_header_map') for a_ in t_['args'] if isinstance(a_, dict) and 'k' in a_)]
+        R.check(len(fm) + len(fmi) == 1, 'C04.R6', 'trailers-first', site(b), 'from_header_map consulted: %d call(s), %d use(s) as a function value' % (len(fm), len(fmi)))
 
     # ---------------------------------------------------------------- R7 h2 table
     R.describe('C04.R7', 'Status::code_from_h2 maps HTTP/2 reasons as spec/h2_reason.json; every h2 error conversion routes through it; to_h2_error: Cancelled -> CANCEL else INTERNAL_ERROR')
